@@ -3,7 +3,7 @@
 import time
 from typing import Callable, Dict, List, Optional, Tuple
 
-from .absint import (DictVal, ExcVal, Interp, Lin, Lst, MinMax, ObjVal, PyRaise, SetVal, State, Str, Tup, feasible,
+from .absint import (DontCare, DictVal, ExcVal, Interp, Lin, Lst, MinMax, ObjVal, PyRaise, SetVal, State, Str, Tup, feasible,
                      label_var, weak_orders)
 from .index import Index, Undecided
 
@@ -15,6 +15,7 @@ class Atoms:
         self.names: List[str] = []
         self.lins: List[Lin] = []
         self.cons: List[Tuple[int, str, int]] = []
+        self.side: List[Tuple[Lin, bool]] = []
         self.derived = False
 
     def var(self, name) -> Lin:
@@ -45,12 +46,28 @@ class Atoms:
         for (x, y), op in zip(zip(names, names[1:]), ops):
             self.rel(x, op, y)
 
-    def states(self):
+    def fact_le(self, a: Lin, b: Lin):
+        """side fact a <= b between linear forms that need not be atoms."""
+        self.side.append((a - b, False))
+
+    def fact_lt(self, a: Lin, b: Lin):
+        self.side.append((a - b, True))
+
+    def raw(self):
+        """rank vectors satisfying the declared order constraints (feasibility not yet checked)."""
+        return list(weak_orders(len(self.names), self.cons))
+
+    def make_state(self, ranks):
         atoms = list(zip(self.names, self.lins))
-        for ranks in weak_orders(len(atoms), self.cons):
-            if self.derived and not feasible(atoms, ranks):
-                continue
-            yield State(atoms, list(ranks))
+        if (self.derived or self.side) and not feasible(atoms, ranks, self.side):
+            return None
+        return State(atoms, list(ranks), self.side)
+
+    def states(self):
+        for ranks in self.raw():
+            st = self.make_state(ranks)
+            if st is not None:
+                yield st
 
 
 class Outcome:
@@ -70,6 +87,8 @@ def run_code(idx: Index, state: State, thunk: Callable[[Interp], object], overri
         return Outcome("ok", v, I.prints), I
     except PyRaise as e:
         return Outcome("raise", e.name, I.prints), I
+    except DontCare as e:
+        return Outcome("dontcare", str(e)), I
     except Undecided as e:
         return Outcome("undecided", str(e)), I
     except RecursionError:
@@ -82,6 +101,8 @@ def run_spec(idx: Index, state: State, thunk: Callable[["Oracle"], object]) -> O
         return Outcome("ok", thunk(O))
     except SpecRaise as e:
         return Outcome("raise", e.name)
+    except DontCare as e:
+        return Outcome("dontcare", str(e))
     except Undecided as e:
         return Outcome("undecided", "spec: " + str(e))
 
@@ -161,8 +182,7 @@ def num_equal(I: Interp, a, b) -> bool:
     a, b = I.num(a), I.num(b)
     if a.same(b):
         return True
-    s = I.state.sign(a - b)
-    return s == 0
+    return I.state.signs(a - b) == frozenset([0])
 
 
 def label_equal(a, b) -> bool:
@@ -212,26 +232,51 @@ def mk_entries(k: int, kind: str, prefix="") -> Tuple[List[Tuple], List[str]]:
     return ents, names
 
 
-def declare_tier(at: Atoms, k: int, kind: str, prefix="", span=True):
-    """Declare atoms for a well-formed tier: m <= s1 < e1 <= s2 < ... <= M (points: t1 < t2 < ...)."""
+def declare_tier(at: Atoms, k: int, kind: str, prefix="", span=True, as_atoms=True, span_atoms=True):
+    """A well-formed tier: m <= s1 < e1 <= s2 < ... <= M (points: t1 < t2 < ...).
+    as_atoms=False: the entry boundaries are free symbols constrained by side facts only (use when the
+    operation never compares them with anything but each other)."""
     ents, names = mk_entries(k, kind, prefix)
-    for n in names:
-        at.var(n)
+    lin = {n: Lin.var(n) for n in names}
+    if as_atoms:
+        for n in names:
+            at.var(n)
+
+    def lt(x, y):
+        if as_atoms:
+            at.rel(x, "<", y)
+        else:
+            at.fact_lt(lin[x], lin[y])
+
+    def le(x, y):
+        if as_atoms:
+            at.rel(x, "<=", y)
+        else:
+            at.fact_le(lin[x], lin[y])
+
     if kind == "interval":
         for i in range(1, k + 1):
-            at.rel("%ss%d" % (prefix, i), "<", "%se%d" % (prefix, i))
+            lt("%ss%d" % (prefix, i), "%se%d" % (prefix, i))
         for i in range(1, k):
-            at.rel("%se%d" % (prefix, i), "<=", "%ss%d" % (prefix, i + 1))
+            le("%se%d" % (prefix, i), "%ss%d" % (prefix, i + 1))
     else:
         for i in range(1, k):
-            at.rel("%st%d" % (prefix, i), "<", "%st%d" % (prefix, i + 1))
+            lt("%st%d" % (prefix, i), "%st%d" % (prefix, i + 1))
     m = M = None
     if span:
-        m, M = at.var(prefix + "m"), at.var(prefix + "M")
-        at.rel(prefix + "m", "<=", prefix + "M")
+        if span_atoms:
+            m, M = at.var(prefix + "m"), at.var(prefix + "M")
+            at.rel(prefix + "m", "<=", prefix + "M")
+        else:
+            m, M = Lin.var(prefix + "m"), Lin.var(prefix + "M")
+            at.fact_le(m, M)
         if names:
-            at.rel(prefix + "m", "<=", names[0])
-            at.rel(names[-1], "<=", prefix + "M")
+            if as_atoms and span_atoms:
+                at.rel(prefix + "m", "<=", names[0])
+                at.rel(names[-1], "<=", prefix + "M")
+            else:
+                at.fact_le(m, lin[names[0]])
+                at.fact_le(lin[names[-1]], M)
     return ents, m, M
 
 
@@ -272,6 +317,79 @@ def tier_equal(I: Interp, got: Dict, want: Dict, check_span=True) -> Optional[st
     return None
 
 
+_ROW_FN = None
+_ATOMS = None
+
+
+def _worker(chunk):
+    out = []
+    for ranks in chunk:
+        st = _ATOMS.make_state(ranks)
+        if st is None:
+            continue
+        out.append((st.describe(), _ROW_FN(st)))
+    return out
+
+
+def run_states(at, row_fn, tr, parallel_threshold=40):
+    """row_fn(state) -> list of (mode, ok, detail, undecided).  Uses all cores for large tables.
+    `at` is an Atoms object (feasibility of each weak order is checked inside the workers)."""
+    import multiprocessing as mp
+    import os
+
+    global _ROW_FN, _ATOMS
+    if not isinstance(at, Atoms):
+        states = list(at)
+        tr.states += len(states)
+        for st in states:
+            for mode, ok, detail, undecided in row_fn(st):
+                tr.row(st.describe(), mode, ok, detail, undecided)
+        return
+    raw = at.raw()
+    results = []
+    ncpu = min(16, os.cpu_count() or 1)
+    _ROW_FN, _ATOMS = row_fn, at
+    if len(raw) >= parallel_threshold and ncpu > 1 and not os.environ.get("VP_SERIAL"):
+        nchunks = ncpu * 4
+        chunks = [raw[i::nchunks] for i in range(nchunks)]
+        chunks = [c for c in chunks if c]
+        ctx = mp.get_context("fork")
+        with ctx.Pool(ncpu) as pool:
+            for part in pool.map(_worker, chunks):
+                results.extend(part)
+        results.sort(key=lambda r: r[0])
+    else:
+        results = _worker(raw)
+    tr.states += len(results)
+    for case, rows in results:
+        for mode, ok, detail, undecided in rows:
+            tr.row(case, mode, ok, detail, undecided)
+
+
+def compare_outcomes(I, mode, got, want, check_span=True, eq=None):
+    """-> (mode, ok, detail, undecided) row."""
+    if got.kind == "dontcare" or want.kind == "dontcare":
+        return (mode, True, "dontcare", None)
+    if got.kind == "undecided" or want.kind == "undecided":
+        return (mode, False, "", got.value if got.kind == "undecided" else want.value)
+    if got.kind != want.kind:
+        return (mode, False, "code %s, spec %s" % (fmt_outcome(got), fmt_outcome(want)), None)
+    if got.kind == "raise":
+        return (mode, got.value == want.value, "code raises %s, spec raises %s" % (got.value, want.value), None)
+    diff = (eq or (lambda I, g, w: tier_equal(I, g, w, check_span)))(I, got.value, want.value)
+    return (mode, diff is None, diff or "", None)
+
+
+def fmt_outcome(o):
+    if o.kind == "raise":
+        return "raises " + str(o.value)
+    if o.kind == "ok" and isinstance(o.value, dict) and "entries" in o.value:
+        return "returns entries %s span (%r, %r)" % (show(o.value.get("entries")), o.value.get("min"), o.value.get("max"))
+    if o.kind == "ok":
+        return "returns " + show(o.value)
+    return repr(o)
+
+
 class TableRun:
     """Accumulates the per-state verdicts of one table for the reporter."""
 
@@ -289,6 +407,9 @@ class TableRun:
 
     def row(self, case: str, mode, ok: bool, detail: str = "", undecided: Optional[str] = None):
         self.rows += 1
+        if ok and detail == "dontcare":
+            self.skipped = getattr(self, "skipped", 0) + 1
+            return
         if undecided:
             self.undecided += 1
             if self.first_undecided is None:
@@ -306,6 +427,6 @@ class TableRun:
         if self.bad > 6:
             self.rep.refuted(self.rule, self.where, what, "%d further abstract cases disagree with the spec table" % (self.bad - 6), loc=self.loc)
         if not self.bad and not self.undecided:
-            self.rep.proved(self.rule, self.where, what, "%d abstract cases (weak orders x modes) agree with the spec table" % self.rows, loc=self.loc)
+            self.rep.proved(self.rule, self.where, what, "%d abstract cases (weak orders x modes) agree with the spec table%s" % (self.rows, (" (%d unconstrained tie cases skipped)" % self.skipped) if getattr(self, "skipped", 0) else ""), loc=self.loc)
         t = self.rep.extra.setdefault("tables", {})
         t[self.rule + " " + self.where + " " + what] = {"cases": self.rows, "disagree": self.bad, "undecided": self.undecided, "wall_s": round(time.time() - self.t0, 2)}
